@@ -47,7 +47,10 @@ def _import_call(ix, c, depth, want_ret=None):
                     rv, neg = kids(rv)[0], not neg
                 extra.add((rv, (not want_ret) if neg else want_ret))
         for a in facts_dnf(ix, p, depth - 1):
-            alts.append(frozenset((sym.subst(atom, m), outcome) for (atom, outcome) in a) | frozenset(extra))
+            alt = frozenset((sym.subst(atom, m), outcome) for (atom, outcome) in a) | frozenset(extra)
+            if _contradictory(ix, alt):
+                continue   # e.g. a match on an enum parameter for which this call site passes another variant
+            alts.append(alt)
     alts = list(dict.fromkeys(alts))
     if not alts:
         alts = [frozenset()]
@@ -58,6 +61,21 @@ def _import_call(ix, c, depth, want_ret=None):
         alts = [frozenset(common)]
     _MEMO[key] = alts
     return alts
+
+
+def _contradictory(ix, alt):
+    """an alternative whose facts cannot hold together once the call-site arguments are known: a discriminant test of
+    a value whose variant is known, a literal bool tested the other way"""
+    for (atom, outcome) in alt:
+        if tag(atom) == "op" and payload(atom)[0] == "discr" and isinstance(outcome, tuple) and kids(atom):
+            v = ix.inline(kids(atom)[0])
+            if tag(v) == "agg":
+                var = payload(v)[1]
+                if (outcome[0] == "variant" and outcome[1] != var) or (outcome[0] == "other" and var in outcome[1]):
+                    return True
+        if tag(atom) == "bool" and outcome in (True, False) and bool(payload(atom)[0]) != outcome:
+            return True
+    return False
 
 
 def facts_dnf(ix, p, depth=4):
